@@ -9,6 +9,9 @@ Runtime monitors, all on the real code:
   names on sqlite, postgresql, mysql, mssql, oracle and the default dialect.  The groups
   are fed by the perturbation operator of ``vf.gen.stmt_gb`` (siblings differing in
   exactly one attribute) and by "literal-only" siblings (same spec, different values).
+  Bind parameters come in value form and in callable form (``bindparam(callable_=...)``,
+  named and anonymous, plus ORM ``relationship == instance`` criteria whose binds read the
+  instance lazily); the two forms of one shape share a key and meet in either order.
 * **P (cached parameters)**: per dialect a private compiled cache is driven through the
   library's own ``ClauseElement._compile_w_cache``; for every statement the parameters
   the cached ``Compiled`` produces through ``construct_params(extracted_parameters=...,
@@ -50,7 +53,8 @@ META = {
     "modes": ["cext", "purepy"],
     "soft_s": {"quick": 90, "thorough": 800},
     "exhaustive": {"quick": False, "thorough": False},
-    "require": ["key_groups_multi", "cached_param_checks_on_hit", "exec_cache_hits", "stmts_executed", "perturbed_pairs_distinct_keys"],
+    "require": ["key_groups_multi", "cached_param_checks_on_hit", "exec_cache_hits", "stmts_executed", "perturbed_pairs_distinct_keys",
+                "callable_bind_siblings", "callable_bind_siblings_executed"],
     "assumptions": ["uncached compilation of a statement is the reference for its SQL and parameters",
                     "SQLite returns the same multiset of rows for the same SQL text, parameters and database"],
 }
@@ -141,6 +145,8 @@ def part_keys(ctx, env, G):
                 ctx.count("perturbation_inapplicable")
                 continue
             ctx.seen("perturbation_tags", tag)
+            if tag == "bindcallable":
+                ctx.count("callable_bind_siblings")
             for f in G.spec_features(sp):
                 ctx.seen("features", f)
             ck = stmt._generate_cache_key()
@@ -366,6 +372,8 @@ def part_exec(ctx, env, G):
                         stmt, b = G.build(env, sp, G.Vals(j, salt=rnd))
                     except G.Inapplicable:
                         continue
+                    if tag == "bindcallable":
+                        ctx.count("callable_bind_siblings_executed")
                     params = G.exec_params(sp, b.vals)
                     if params is None and b.named and rng.random() < 0.5:
                         params = {n: b.vals.next("int") for n in sorted(b.named)[:2]}
